@@ -13,6 +13,7 @@ import (
 	"net"
 	"os"
 	"path/filepath"
+	"strconv"
 	"strings"
 	"sync"
 	"time"
@@ -555,6 +556,29 @@ func (n *node) flood(peers, per int, mix string) string {
 	return "alive"
 }
 
+func bsz(b *bits.BitArray) string {
+	if b == nil {
+		return "nil"
+	}
+	return fmt.Sprintf("%d:%d", b.Bits, len(b.Elems))
+}
+
+// prsLine prints the peer round state of the (hostile) peer: scalars and the SIZES of its bit arrays
+func (n *node) prsLine() string {
+	ps, ok := n.peer.Get(types.PeerStateKey).(*consensus.PeerState)
+	if !ok {
+		return "prs=none"
+	}
+	p := ps.GetRoundState()
+	b := 0
+	if p.Proposal {
+		b = 1
+	}
+	return fmt.Sprintf("prs=%d/%d/%d prop=%d tot=%d pbp=%s polr=%d pol=%s pv=%s pc=%s lcr=%d lc=%s ccr=%d cc=%s",
+		p.Height, p.Round, p.Step, b, p.ProposalBlockPartSetHeader.Total, bsz(p.ProposalBlockParts), p.ProposalPOLRound, bsz(p.ProposalPOL),
+		bsz(p.Prevotes), bsz(p.Precommits), p.LastCommitRound, bsz(p.LastCommit), p.CatchupCommitRound, bsz(p.CatchupCommit))
+}
+
 func (n *node) health() string {
 	if n.cs == nil {
 		return "healthy"
@@ -599,9 +623,13 @@ func execReactor(c core.Case) []string {
 				out = append(out, "ok")
 			}
 		case "rmsg":
-			out = append(out, n.receive(byte(atoi(m["ch"])), unhx(m["bytes"])))
+			o := n.receive(byte(atoi(m["ch"])), unhx(m["bytes"]))
+			if n.kind == "consensus" {
+				o += " " + n.prsLine()
+			}
+			out = append(out, o)
 		case "gossip":
-			out = append(out, n.gossip(m["what"]))
+			out = append(out, n.gossip(m["what"])+" "+n.prsLine())
 		case "health":
 			out = append(out, n.health())
 		case "flood":
@@ -617,12 +645,27 @@ func oracleReactor(c core.Case, out []string) []core.Finding {
 	var fs []core.Finding
 	kind := ""
 	lastKind := ""
+	seenBig := map[string]bool{}
 	for i, op := range c.Ops {
 		m := kv(op)
-		o := out[i]
+		full := out[i]
+		o := full
+		if f := strings.Fields(full); len(f) > 0 {
+			o = f[0]
+		}
 		verb := strings.Fields(op)[0]
 		if verb == "reactor" {
 			kind = m["kind"]
+		}
+		// no bit array of the peer state may be larger than anything the protocol allows
+		for _, t := range strings.Fields(full)[min(1, len(strings.Fields(full))):] {
+			if i := strings.IndexByte(t, '='); i > 0 && strings.Contains(t[i+1:], ":") {
+				if b, err := strconv.ParseInt(strings.SplitN(t[i+1:], ":", 2)[0], 10, 64); err == nil && b > 10000 && !seenBig[t] {
+					seenBig[t] = true
+					fs = append(fs, core.Finding{Fingerprint: kind + ".peerstate.oversized-bitarray-after-" + m["kind"],
+						Desc: fmt.Sprintf("after %s the peer state holds a bit array of %d bits (%s): more than MaxVotesCount/MaxBlockPartsCount, allocated on the word of one unauthenticated message", trunc(op, 160), b, t)})
+				}
+			}
 		}
 		if verb == "rmsg" && o == "ok" {
 			lastKind = m["kind"]
@@ -867,7 +910,7 @@ func genConsensusCase(r *rand.Rand) []string {
 			if r.Intn(6) == 0 {
 				m.Height, m.Round = hostileInt64(r), hostileInt32(r)
 			}
-			v = g.msg(0x20, "newvalidblock", fmt.Sprintf("h=%d r=%d total=%d hashlen=%d %s", m.Height, m.Round, total, hl, bstr(m.BlockParts)), consMsg(m))
+			v = g.msg(0x20, "newvalidblock", fmt.Sprintf("h=%d r=%d total=%d hashlen=%d commit=%v %s", m.Height, m.Round, total, hl, m.IsCommit, bstr(m.BlockParts)), consMsg(m))
 			if v == "ok" {
 				g.gossip("part")
 			}
@@ -909,7 +952,7 @@ func genConsensusCase(r *rand.Rand) []string {
 			if !ok {
 				bok = 0
 			}
-			v = g.msg(0x23, "votesetbits", fmt.Sprintf("h=%d r=%d tok=%d bidok=%d %s", m.Height, m.Round, tok, bok, bstr(&m.Votes)), consMsg(m))
+			v = g.msg(0x23, "votesetbits", fmt.Sprintf("h=%d r=%d t=%d tok=%d bidok=%d %s", m.Height, m.Round, m.Type, tok, bok, bstr(&m.Votes)), consMsg(m))
 			if v == "ok" {
 				g.gossip("vote")
 			}
@@ -937,7 +980,7 @@ func genConsensusCase(r *rand.Rand) []string {
 				m.Proposal.Signature = rbytes(r, r.Intn(100))
 				m.Proposal.PolRound = hostileInt32(r)
 			}
-			v = g.msg(0x21, "opaque-proposal", "", consMsg(m))
+			v = g.msg(0x21, "opaque-proposal", fmt.Sprintf("h=%d r=%d polr=%d total=%d ", m.Proposal.Height, m.Proposal.Round, m.Proposal.PolRound, m.Proposal.BlockID.PartSetHeader.Total), consMsg(m))
 			if v == "ok" {
 				g.gossip("part")
 			}
@@ -951,7 +994,7 @@ func genConsensusCase(r *rand.Rand) []string {
 			if r.Intn(5) == 0 {
 				m.Height, m.Round = hostileInt64(r), hostileInt32(r)
 			}
-			v = g.msg(0x21, "opaque-blockpart", "", consMsg(m))
+			v = g.msg(0x21, "opaque-blockpart", fmt.Sprintf("h=%d r=%d idx=%d ", m.Height, m.Round, m.Part.Index), consMsg(m))
 		case 11: // Vote with hostile fields
 			vt := tmproto.Vote{Type: tmproto.SignedMsgType(1 + r.Intn(2)), Height: height, Round: round, BlockID: blockID(r, r.Intn(4) != 0),
 				Timestamp: time.Unix(1600000003, 0).UTC(), ValidatorAddress: rbytes(r, 20), ValidatorIndex: hostileInt32(r), Signature: rbytes(r, 64)}
@@ -962,7 +1005,7 @@ func genConsensusCase(r *rand.Rand) []string {
 				vt.Height, vt.Type, vt.ValidatorIndex = 0, tmproto.PrecommitType, int32(r.Intn(5))
 				vt.BlockID = blockID(r, true)
 			}
-			v = g.msg(0x22, "opaque-vote", "", consMsg(&tmcons.Vote{Vote: &vt}))
+			v = g.msg(0x22, "opaque-vote", fmt.Sprintf("vh=%d vr=%d vt=%d vidx=%d ", vt.Height, vt.Round, vt.Type, vt.ValidatorIndex), consMsg(&tmcons.Vote{Vote: &vt}))
 			if v == "ok" {
 				if h := g.n.health(); h != "healthy" {
 					note("generator-saw-" + h)
@@ -982,7 +1025,7 @@ func genConsensusCase(r *rand.Rand) []string {
 					vb.Votes = tmbits.BitArray{Bits: int64(1 + r.Intn(70)), Elems: nil}
 					vb.Votes.Elems = make([]uint64, (vb.Votes.Bits+63)/64)
 				}
-				v = g.msg(0x23, "votesetbits", fmt.Sprintf("h=%d r=%d tok=1 bidok=1 %s", vb.Height, vb.Round, bstr(&vb.Votes)), consMsg(vb))
+				v = g.msg(0x23, "votesetbits", fmt.Sprintf("h=%d r=%d t=%d tok=1 bidok=1 %s", vb.Height, vb.Round, vb.Type, bstr(&vb.Votes)), consMsg(vb))
 				if v == "ok" {
 					g.gossip("vote")
 				}
